@@ -208,6 +208,35 @@ fn c13_token_type_ranges() {
     assert!(!is_macro_stat_tok_type(TokenType::MacroIdentifier) && !is_macro_stat_tok_type(TokenType::KwmEval));
 }
 
+/// C18/C06 (contracts/frag/macro_stat.vx: external contracts of the two range predicates): the discriminant ranges
+/// are exactly the keyword classes they stand for — the macro STATEMENT keywords and the macro QUOTING functions
+#[kani::proof]
+fn c18_macro_kw_class_tables() {
+    let t = any_token_type();
+    assert!(
+        is_macro_stat_tok_type(t)
+            == matches!(
+                t,
+                TokenType::KwmAbort | TokenType::KwmCopy | TokenType::KwmDisplay | TokenType::KwmDo | TokenType::KwmTo
+                    | TokenType::KwmBy | TokenType::KwmUntil | TokenType::KwmWhile | TokenType::KwmEnd
+                    | TokenType::KwmGlobal | TokenType::KwmGoto | TokenType::KwmIf | TokenType::KwmThen
+                    | TokenType::KwmElse | TokenType::KwmInput | TokenType::KwmLet | TokenType::KwmLocal
+                    | TokenType::KwmMacro | TokenType::KwmMend | TokenType::KwmPut | TokenType::KwmReturn
+                    | TokenType::KwmSymdel | TokenType::KwmSyscall | TokenType::KwmSysexec | TokenType::KwmSyslput
+                    | TokenType::KwmSysmacdelete | TokenType::KwmSysmstoreclear | TokenType::KwmSysrput
+                    | TokenType::KwmWindow | TokenType::KwmInclude | TokenType::KwmList | TokenType::KwmRun
+            )
+    );
+    assert!(
+        is_macro_quote_call_tok_type(t)
+            == matches!(
+                t,
+                TokenType::KwmBquote | TokenType::KwmNrBquote | TokenType::KwmNrQuote | TokenType::KwmQuote
+                    | TokenType::KwmSuperq | TokenType::KwmStr | TokenType::KwmNrStr
+            )
+    );
+}
+
 // (a bounded harness on hex.rs::parse_sas_hex_string with a 2-character content did not finish in 15 min /
 //  String+Vec+iterator chains+encoding tables: the hex decoder is outside what CBMC can do here; see DESIGN.md)
 
